@@ -404,6 +404,9 @@ fn guided_walk(prop: &str, rng: &mut Rng, signs: &[(PageFlipStyle, u16)], steps:
         dims: HashMap::new(),
     };
     let mut dead = false;
+    // every sign also lives alone: a stand-alone copy is fed every message of the walk and must stay
+    // identical to its twin on the bus (isolation = each sign behaves as if it were alone)
+    let mut alone: Vec<VirtualSign<'static>> = signs.iter().map(|(st, a)| VirtualSign::new(Address(*a), *st)).collect();
     while n < steps && !dead {
         let k = w.rng.below(signs.len() as u64) as usize;
         let msgs: Vec<Message<'static>> = if w.rng.chance(70) {
@@ -469,6 +472,21 @@ fn guided_walk(prop: &str, rng: &mut Rng, signs: &[(PageFlipStyle, u16)], steps:
                         if p.as_bytes().len() != total_bytes(p.width(), p.height()) {
                             failure = Some("C13 stored page is not a complete page".into());
                         }
+                    }
+                }
+            }
+            if prop == "C14" {
+                for (i, t) in alone.iter_mut().enumerate() {
+                    let _ = guarded(|| t.process_message(&m));
+                    if failure.is_none() && show_sign(t) != after[i] {
+                        failure = Some(format!(
+                            "C14 after message #{} {}: the sign at {:04X} on the bus is {} but the same sign alone, given the same messages, is {}",
+                            n,
+                            &show_msg(&m)[..show_msg(&m).len().min(40)],
+                            addrs[i],
+                            after[i],
+                            show_sign(t)
+                        ));
                     }
                 }
             }
